@@ -305,6 +305,55 @@ async def _run(ctx: Ctx, built: bool) -> None:
                               {"known_list": list(known), "block_list": list(block), "devices": sorted(present)})
         await gwy.stop()
 
+    # ---------------- O5: the same lists after a cache RESTORE (which relaxes the known list for its own temporary protocol when the list names no
+    # gateway): packets of unlisted / blocked ids in the cache give rise to no device, and look-ups afterwards are filtered as before
+    import datetime as _dtm  # noqa: PLC0415
+    for n in range(40 if thorough else 14):
+        known, block, enforce_cfg, _ = gen_cfg(rng)
+        if n % 2 == 0:      # a known list that names no gateway (no 18: entry of class HGI): the case the restore relaxes its own filter for
+            known = {k: v for k, v in known.items() if not k.startswith("18:")}
+            enforce_cfg = True if known else enforce_cfg
+        now = _dtm.datetime.now()
+        pkts = {}
+        for k in range(24):
+            src, dst = rng.sample(LISTABLE, 2)
+            pkts[(now - _dtm.timedelta(seconds=60 - k)).isoformat(timespec="microseconds")] = f"045  I --- {src} {dst} --:------ 0008 002 00C8"
+        try:
+            gwy = Gateway(None, input_file=io.TextIOWrapper(io.BytesIO(b"")), known_list=known, block_list=block, config={"enforce_known_list": enforce_cfg})
+        except Exception:  # noqa: BLE001
+            continue
+        await gwy.start()
+        enforce = gwy._enforce_known_list
+        hgis = {getattr(gwy.hgi, "id", None), gwy._protocol.hgi_id}
+        try:
+            await gwy._restore_cached_packets(pkts)
+        except Exception as err:  # noqa: BLE001
+            ctx.dist["restore-raises:" + type(err).__name__] += 1
+        for _ in range(5):
+            await asyncio.sleep(0)
+        ctx.case(("restore", tuple(known), tuple(block), enforce), True, "gateway-after-restore")
+        case = {"known_list": list(known), "block_list": list(block), "enforce_known_list": bool(enforce), "cached_packets": list(pkts.values())}
+        present = {d.id for d in gwy.devices}
+        bad = sorted(d for d in present if d in block and d not in hgis)
+        if bad:
+            ctx.violation("restore-gives-rise-to-blocked-device", "a block-listed id in the restored cache gave rise to a device", {**case, "devices": bad})
+        if enforce:
+            bad = sorted(d for d in present if d not in known and d not in hgis)
+            if bad:
+                ctx.violation("restore-gives-rise-to-unlisted-device", "an unlisted id in the restored cache gave rise to a device although the known list is enforced", {**case, "devices": bad})
+        for d in rng.sample(LISTABLE, 8):
+            if d in present:
+                continue
+            try:
+                ok = gwy.get_device(d) is not None
+            except LookupError:
+                ok = False
+            allowed = d not in block and (not enforce or d in known or d in hgis)
+            if ok and not allowed:
+                ctx.violation("gateway-device-for-filtered-id:after-a-restore", "after a cache restore get_device creates a device for a blocked / unlisted id",
+                              {**case, "device": d})
+        await gwy.stop()
+
     # ---------------- run the model, compare
     if built:
         res = common.coq_eval("C10", files, timeout=600)
